@@ -86,8 +86,14 @@ type streamPlan struct {
 	At       int
 }
 
+type fetchSecrets struct {
+	Ref     string
+	Secrets []string
+}
+
 type fetcher struct {
 	mu      sync.Mutex
+	secrets []fetchSecrets        // pull secrets every Fetch was given
 	images  map[string]builtImage // by source string
 	plan    map[string]streamPlan // one-shot, by source
 	fetches int
@@ -98,11 +104,12 @@ func newFetcher() *fetcher {
 	return &fetcher{images: map[string]builtImage{}, plan: map[string]streamPlan{}, opens: map[string]int{}}
 }
 
-func (f *fetcher) Fetch(_ context.Context, ref name.Reference, _ ...string) (gcrv1.Image, error) {
+func (f *fetcher) Fetch(_ context.Context, ref name.Reference, secrets ...string) (gcrv1.Image, error) {
 	f.mu.Lock()
 	defer f.mu.Unlock()
 	f.fetches++
 	src := ref.String()
+	f.secrets = append(f.secrets, fetchSecrets{Ref: src, Secrets: append([]string(nil), secrets...)})
 	bi, ok := f.images[src]
 	if !ok {
 		return nil, fmt.Errorf("verif: no image %q", src)
